@@ -27,7 +27,7 @@ def forgetL (d : Err) : List Err → List Err
 end
 
 /-- A barrier has no cause: Unwrap / UnwrapOnce return nil, UnwrapAll stops at it. -/
-theorem C07_barrier_unwrap (id : Ident) (m : RStr) (h : Err) :
+theorem C07_barrier_unwrap (id : Ident) (m : BarrierMsg) (h : Err) :
     unwrapOnce (.barrier id m h) = none ∧ unwrapAll (.barrier id m h) = .barrier id m h ∧
     unwrapMulti (.barrier id m h) = [] := ⟨rfl, rfl, rfl⟩
 
@@ -200,7 +200,7 @@ theorem C07_isAny (P : Proc) (d e : Err) (refs : List (Option Err)) :
     matched, while the same sentinel as a cause is. -/
 theorem C07_is_example :
     let sentinel : Err := .leaf [1] (.errorString (b!"context canceled"))
-    let hiddenBehind : Err := .barrier [100] (b!"context canceled") sentinel
+    let hiddenBehind : Err := .barrier [100] ⟨b!"context canceled", none⟩ sentinel
     let asSecondary : Err := .second [101] (.leaf [102] (.errorString (b!"x"))) sentinel
     let asCause : Err := .wrap [103] (.withHint (b!"h")) sentinel
     isB Full hiddenBehind sentinel = false ∧ isB Full asSecondary sentinel = false ∧ isB Full asCause sentinel = true := by
@@ -216,11 +216,11 @@ theorem C07_handled (n : Nat) (rs : RStr) (e : Err) :
 /-- HandleAsAssertionFailure and NewAssertionErrorWithWrappedErrf put the original error
     behind a barrier: the root cause of the result is that barrier. -/
 theorem C07_handleAsAssertion_root (n : Nat) (rs : RStr) (st : Stack) (e : Err) :
-    (cHandleAsAssertionFailure n rs st (some e)).map unwrapAll = some (.barrier (lid n 0) rs e) := by
+    (cHandleAsAssertionFailure n rs st (some e)).map unwrapAll = some (.barrier (lid n 0) ⟨rs, none⟩ e) := by
   simp [cHandleAsAssertionFailure, cAnnot, cWithStack, cHandled, unwrapAll]
 
 theorem C07_newAssertionWrapped_root (n : Nat) (a : RStr) (b : Bool) (rs : RStr) (st : Stack) (e : Err) :
-    (cNewAssertionErrorWithWrappedErrf n a b rs st (some e)).map unwrapAll = some (.barrier (lid n 0) a e) := by
+    (cNewAssertionErrorWithWrappedErrf n a b rs st (some e)).map unwrapAll = some (.barrier (lid n 0) ⟨a, none⟩ e) := by
   cases b <;> simp [cNewAssertionErrorWithWrappedErrf, cAnnot, cWrap, cHandled, unwrapAll]
 
 /-- WithSecondaryError: the secondary error is not on the cause chain. -/
